@@ -125,9 +125,9 @@ func cmdCheck(args []string) int {
 		}
 		cfg := *h
 		if cfg.TimeoutS == 0 { // never run away: an unfinished harness is INCONCLUSIVE, not a hang
-			cfg.TimeoutS = 900
+			cfg.TimeoutS = 1800
 			if *tier == "thorough" {
-				cfg.TimeoutS = 3600
+				cfg.TimeoutS = 5400
 			}
 		}
 		primary := "cvc5-int"
